@@ -13,9 +13,17 @@ use uuid::Uuid;
 
 type Outs = Arc<Mutex<Vec<(String, Value, f64)>>>;
 
+/// The output receiver answers after this many milliseconds (the notification is recorded on arrival): a
+/// slow destination keeps the delivery of a result in flight.
+static OUTPUT_ANSWER_DELAY_MS: std::sync::atomic::AtomicU64 = std::sync::atomic::AtomicU64::new(0);
+
 async fn output(State((outs, t0)): State<(Outs, Instant)>, uri: Uri, body: Bytes) {
     let v: Value = serde_json::from_slice(&body).unwrap_or(json!({"undecodable": body.len()}));
     outs.lock().unwrap().push((uri.path().to_string(), v, t0.elapsed().as_secs_f64()));
+    let d = OUTPUT_ANSWER_DELAY_MS.load(std::sync::atomic::Ordering::Relaxed);
+    if d > 0 {
+        tokio::time::sleep(Duration::from_millis(d)).await;
+    }
 }
 
 async fn start_servers(n: usize) -> Vec<Url> {
@@ -229,6 +237,8 @@ async fn c15_main(seed: u64, n_sc: usize) {
         let parts = vec![a.clone(), b.clone()];
         let m = 1 + (x as usize >> 8) % 3;
         let delay_ms = if (x >> 40) & 1 == 0 { [0u64, 0, 1, 2, 4, 8, 15, 30][(x as usize >> 12) % 8] } else { (x >> 12) % 260 };
+        let answer_delay = [0u64, 0, 25, 80, 200][(x as usize >> 44) % 5];
+        OUTPUT_ANSWER_DELAY_MS.store(answer_delay, std::sync::atomic::Ordering::Relaxed);
         let mut ids = vec![];
         let mut sched = vec![];
         for j in 0..m {
@@ -273,14 +283,14 @@ async fn c15_main(seed: u64, n_sc: usize) {
         for h in later {
             let _ = tokio::time::timeout(Duration::from_secs(5), h).await;
         }
-        tokio::time::sleep(Duration::from_millis(400)).await;
+        tokio::time::sleep(Duration::from_millis(400 + answer_delay)).await;
         let got = outs.lock().unwrap().clone();
         let per_comp: Vec<Value> = ids.iter().enumerate().map(|(j, (id, leader, inputs))| {
             let a_status = a_statuses.get(j).copied().unwrap_or(-9);
             let mine: Vec<Value> = got.iter().filter(|(p, _, _)| p.contains(&id.to_string()) && p.contains("/p0/")).map(|(_, v, t)| json!({"type": v["type"], "t": t, "ok": v["type"] == "success" && v["details"]["NumUnsigned"][0].as_u64() == Some(inputs[0] ^ inputs[1])})).collect();
             json!({"id": id.to_string(), "leader": leader, "schedule_status_at_cancelled_server": a_status, "notifications_at_cancelled_server": mine})
         }).collect();
-        println!("{}", json!({"c15_scenario": k, "seed": seed, "computations": m, "delay_ms": delay_ms, "schedule_status": sched_status, "cancel_returned": returned, "t_cancel_call": t_cancel_call, "t_cancel_return": t_cancel_ret, "per_computation": per_comp}));
+        println!("{}", json!({"c15_scenario": k, "seed": seed, "computations": m, "delay_ms": delay_ms, "destination_answers_after_ms": answer_delay, "schedule_status": sched_status, "cancel_returned": returned, "t_cancel_call": t_cancel_call, "t_cancel_return": t_cancel_ret, "per_computation": per_comp}));
     }
     println!("{}", json!({"c15_done": n_sc, "wall_s": t0.elapsed().as_secs_f64()}));
 }
@@ -357,9 +367,12 @@ async fn c17_main(seed: u64, n_sc: usize) {
         let a = start_server(ServerOpts { concurrency: conc, tmp_dir: None, jwt_conf: None, cancel: None }).await;
         let b = start_server(ServerOpts { concurrency: 4, tmp_dir: None, jwt_conf: None, cancel: None }).await;
         // logging / failing proxy in front of b
-        let fail_kind = ["none", "run", "consts", "validate", "none"][(x as usize >> 6) % 5];
+        // failing request: every (kind, status) pair and "none" in turn (13 combinations; the three
+        // processes of the quick tier use consecutive seeds and together cover all of them)
+        let combo = (k + 5 * seed as usize) % 13;
+        let fail_kind = if combo == 12 { "none" } else { ["run", "consts", "validate"][combo % 3] };
         let fail_occ = (x as usize >> 10) % 3;
-        let fail_status = [400u16, 404, 500, 503][(x as usize >> 12) % 4];
+        let fail_status = [400u16, 404, 500, 503][(combo / 3) % 4];
         let proxy = Proxy { target: b.clone(), client: client.clone(), log: Arc::new(Mutex::new(vec![])), t0, fail: Arc::new(Mutex::new(if fail_kind == "none" { None } else { Some((fail_kind.to_string(), fail_occ, fail_status)) })), seen: Default::default(), failed_comp: Default::default(), barrier: Default::default() };
         let listener = tokio::net::TcpListener::bind("127.0.0.1:0").await.expect("bind proxy");
         let purl = Url::parse(&format!("http://{}", listener.local_addr().unwrap())).unwrap();
